@@ -29,9 +29,14 @@ import (
 	"verifharness/internal/vh"
 )
 
+// tagName: distinct ids are distinct tags; some are chosen so that a sloppy comparison (prefix,
+// case-insensitive) would confuse them: 4 = "T1" (vs 1 = "t1"), 11 = "t11" (vs 1 = "t1").
 func tagName(id int) string {
-	if id == 0 {
+	switch id {
+	case 0:
 		return ""
+	case 4:
+		return "T1"
 	}
 	return "t" + strconv.Itoa(id)
 }
@@ -147,19 +152,19 @@ func gen(r *vh.Rand, tier string) []string {
 		}
 		out = append(out, fmt.Sprintf("pair %s %d %d %s %s %s", kind, limit, passes, joinInts(tags), joinInts(chosen), cancel))
 	}
-	files := [][]int{{1}, {2, 1, 1}, {1, 2, 1, 2}, {1, 0, 2, 1, 3}, {3, 1, 2, 2, 1, 3}}
-	filters := [][]int{nil, {1}, {2}, {2, 1}, {1, 2, 1}, {9}, {3, 9, 1}}
+	files := [][]int{{1}, {2, 1, 1}, {1, 2, 1, 2}, {1, 0, 2, 1, 3}, {11, 1, 4, 1}, {3, 1, 2, 2, 1, 3}}
+	filters := [][]int{nil, {1}, {2}, {2, 1}, {1, 2, 1}, {9}, {3, 9, 1}, {11}, {4, 2}}
 	limits := []int{0, 1, 2, 3, 5}
 	passesL := []int{0, 1, 2}
 	if tier != "thorough" {
-		files = files[:4]
+		files = files[:5]
 	}
 	for _, kind := range a08.HTTPKinds {
 		for _, tags := range files {
 			for _, ch := range filters {
 				for _, l := range limits {
 					for _, p := range passesL {
-						if tier != "thorough" && (l == 5 || (l == 3 && p == 2)) && len(tags) != 4 {
+						if tier != "thorough" && (l == 5 || (l == 3 && p == 2) || (l == 2 && p == 1)) && len(tags) != 4 {
 							continue
 						}
 						add(kind, l, p, tags, ch)
@@ -177,11 +182,11 @@ func gen(r *vh.Rand, tier string) []string {
 		n := r.Range(1, 8)
 		tags := make([]int, n)
 		for j := range tags {
-			tags[j] = r.Intn(4)
+			tags[j] = r.PickInt([]int{0, 1, 1, 2, 2, 3, 4, 11})
 		}
 		var ch []int
 		for j := r.Intn(4); j > 0; j-- {
-			ch = append(ch, r.Range(1, 5))
+			ch = append(ch, r.PickInt([]int{1, 2, 3, 4, 5, 11}))
 		}
 		add(kind, r.PickInt([]int{0, 0, 1, 2, 3, 5, 9, 17}), r.PickInt([]int{0, 0, 1, 2, 3, 4}), tags, ch)
 	}
